@@ -4,6 +4,7 @@
 CONSTANTS
   MaxLen = 1
   ApiFilter = {"localtxmonitor.HasTx", "blockfetch.GetBlockRange", "peersharing.GetPeers"}
+  TmoOnly = {}
   Design = "keeptimer"
   Emit = FALSE
 SPECIFICATION Spec
